@@ -368,7 +368,9 @@ CHECK = {
             "toENU(ecef) / toECEF / toWGS84 / round trips / isAnchored / getEnuToEcefTransform / getAnchor); anchors |lat|<=85deg "
             "(ends included), longitudes incl. +-pi and neighbours, h in [-500,9000] m; points within 100 km / 10 km of the current "
             "anchor (axis-aligned displacements included); non-trivial = at least 3 op kinds with a reset or re-anchoring",
-    "trusted": ["translator translate/srcfuns.py (clang AST of setAnchor's comma initialisers -> Gallina)", "hand-written models coq/EnuModel.v, coq/GeodesyModel.v tied by differential execution (this run)",
+    "trusted": ["translator translate/srcfuns.py (clang AST of setAnchor's comma initialisers -> Gallina)",
+                "translator translate/tr_C02_enu.py + translate/imptrans.py (clang AST of every method of ENUConverter -> Gallina state transformers) and its Eigen vocabulary coq/EnuVocab.v",
+                "hand-written models coq/EnuModel.v, coq/GeodesyModel.v: tied syntactically (SrcTieC02State.v, SrcTieC02.v, SrcTieC01.v) and by differential execution (this run)",
                 "Eigen Transform::inverse / 3x3 inverse / matrix-vector product modelled (adjugate inverse), not verified",
                 "translator translate/constants.py (GRS80 axes, EPSILON)", "extraction, ocaml/numf.ml, ocaml/drv_C02.ml",
                 "harness/C02.cpp (reports 'assert' instead of calling an asserting method on an un-anchored converter), mpmath oracle"],
@@ -376,7 +378,21 @@ CHECK = {
                     "toENU(WGS84Coordinates) is read as 'the point at the anchor's altitude' (altitude 0 on a fresh/reset converter)"],
     "run_timeout": 900,
     "manifest": {
-        "text": "SYNTACTIC TIE: the 3x3 frame block written by setAnchor is re-translated from the clang AST of the current source on every run (translate/srcfuns.py -> coq/gen/SrcFunsC02.v) and proved equal to the model's frame matrix. Coq theorems over the reals about a state-machine model of ENUConverter: the frame matrix is a proper rotation "
+        "text": "SYNTACTIC TIE: the 3x3 frame block written by setAnchor is re-translated from the clang AST of the current source on every run (translate/srcfuns.py -> coq/gen/SrcFunsC02.v) and proved equal to the model's frame matrix. "
+                "SYNTACTIC TIE OF THE STATE MACHINE: the whole of src/geodesy/ENUConverter.cpp — both constructors, setAnchor, reset, isAnchored, getAnchor, "
+                "getEnuToEcefTransform, the vector and three-scalar toECEF / toWGS84, the three toENU overloads — is re-translated on every run "
+                "(translate/tr_C02_enu.py, on the library translate/imptrans.py -> coq/gen/SrcEnu.v) into Gallina transformers of the fields "
+                "(enu2ecef_, isAnchored_, wgs84Anchor_); the class must have exactly the model's four data members and fourteen member functions "
+                "(a new member such as a cached inverse, a new method, a static or lazily evaluated local make the translator refuse). "
+                "coq/SrcTieC02State.v proves each transformer equal to the corresponding step of the model (C02_source_tie_constructors, _reset "
+                "[= the model's reset and field for field what the default constructor leaves], _setAnchor_shape [nothing of the earlier state "
+                "survives, translation = toECEF of the new anchor, flag set, anchor stored], _setAnchor, _accessors, _conversions [toENU uses the inverse "
+                "of the current transform, toECEF the transform], _three_scalar_overloads [arguments in order], _auto_anchoring [anchors iff not anchored; "
+                "toENU(WGS84) takes the altitude of the current anchor]) and C02_source_tie_state_machine: the step function assembled from the generated "
+                "transformers IS the model's step function — over the reals outright, and for every numeric dictionary (the executed binary64 one "
+                "included) in which the 3x3 block of the source's setAnchor is the model's (C02_source_tie_state_machine_every_dictionary). Hence "
+                "the operation-sequence theorems hold of the code as written (C02_source_state_determined_by_last_anchor, _reset_equals_init, "
+                "_reanchoring_replaces_frame, _first_conversion_anchors, _histories_every_dictionary). Coq theorems over the reals about a state-machine model of ENUConverter: the frame matrix is a proper rotation "
                 "(R^T R = I, det = 1) whose columns are the normalised longitude- and latitude-derivatives of toECEF (east, north) and "
                 "the ellipsoid normal (up); the anchor maps to the origin, a point h above it to (0,0,h); to-local is an isometry and "
                 "is inverse to to-ECEF both ways (Eigen's adjugate inverse of a rotation is its transpose); for every operation "
@@ -384,8 +400,16 @@ CHECK = {
                 "re-anchoring fully replaces the frame; first geodetic conversion on an un-anchored converter anchors there and "
                 "returns 0). The pre-repair reset() is refuted by a witness. Tied by running the extracted model against the "
                 "compiled class on random op sequences; mpmath oracle checks east/north/up coordinates to 1 mm.",
-        "note": "Trusted: Coq kernel, real-number axioms, hand-written model (Eigen's affine inverse is modelled), extraction, "
-                "float dictionary, harness, oracle. The toWGS84 leg inherits C01's partial convergence statement.",
-        "technique": "Coq proof (ring/field/nra, Coquelicot derivatives, induction over op lists) + correspondence run + mpmath oracle",
+        "note": "Trusted: Coq kernel, real-number axioms, extraction, float dictionary, harness, oracle; the translators (clang JSON AST -> Gallina) and "
+                "the Eigen vocabulary of coq/EnuVocab.v: Affine3d = (3x3 block, translation), Identity, translation() =, linear().col(k) << x,y,z, "
+                "operator* on a point = block*p + translation, inverse() = (cofactor inverse of the block, -(inverse*translation)), "
+                "(Vector3d() << x,y,z).finished() = (x,y,z), value-initialised GeodeticCoordinates = zeros, makeGeodeticCoordinates packs its arguments "
+                "(this reading of Eigen is modelled, not verified, and exercised by the correspondence run); the member ecefConverter_ is "
+                "default-constructed (GRS80), never assigned, and its two const methods are GeodesyModel.toECEF / toWGS84 (tied in C01). "
+                "The translation is of the -DNDEBUG build: assert(isAnchored_) is not in it (model and harness report 'assert' instead of calling "
+                "toECEF / toENU(ecef) / toWGS84 on an un-anchored converter); a reference argument is assumed not to alias a field of the converter. "
+                "The toWGS84 leg inherits C01's partial convergence statement.",
+        "technique": "Coq proof (ring/field/nra, Coquelicot derivatives, induction over op lists; symbolic execution of the C++ methods into Gallina "
+                     "state transformers + tie lemmas by computation) + correspondence run + mpmath oracle",
     },
 }
